@@ -17,7 +17,7 @@ from formak.ast_tools import (
     SourceFile,
 )
 from formak.exceptions import ModelConstructionError
-from sympy import Derivative, Dummy, Matrix, Symbol, ccode, cse, simplify
+from sympy import Derivative, Dummy, Matrix, Symbol, ccode, cse, simplify, zoo
 
 from formak import ast_fragments as fragments
 from formak import common
@@ -96,6 +96,20 @@ class CppCompileResult:
     source_path: Optional[str] = None
 
 
+def _simplify(expr):
+    """
+    simplify(), unless it introduces a ComplexInfinity.
+
+    simplify() rewrites sign(x) next to a pole at x into a Piecewise whose
+    x == 0 branch is ComplexInfinity, which cannot be compiled; the
+    expression as given can.
+    """
+    simplified = simplify(expr)
+    if simplified.has(zoo) and not expr.has(zoo):
+        return expr
+    return simplified
+
+
 def _partial_derivative(model, symbol):
     """
     Derivative of a model expression in closed form.
@@ -169,13 +183,13 @@ class BasicBlock:
         for target, expr in prefix:
             assert isinstance(target, Symbol)
             if self._config.common_subexpression_elimination:
-                expr = simplify(expr)
+                expr = _simplify(expr)
             cc_expr = ccode(expr)
             yield MemberDeclaration("double", target, cc_expr)
 
         for target, expr in zip(self._targets, body):
             if self._config.common_subexpression_elimination:
-                expr = simplify(expr)
+                expr = _simplify(expr)
             cc_expr = ccode(expr)
             yield MemberDeclaration("", target, cc_expr)
 
